@@ -41,6 +41,18 @@ def _deep(n):
     return x
 
 
+NTItems = collections.namedtuple("NTItems", "items keys get values")   # plain data whose field names look like mapping methods
+
+
+class ObjItems:
+    items = 5
+    keys = None
+    get = "g"
+
+    def __repr__(self):
+        return "ObjItems()"
+
+
 def _one():   # module-level default factory: two fresh defaultdict mutants stay comparable (default_factory identity)
     return 1
 
@@ -81,6 +93,7 @@ POOL = [
     ("UUID", lambda: uuid.UUID(int=5)), ("Path", lambda: pathlib.PurePosixPath("a")),
     ("EInt.A", lambda: EInt.A), ("EStr.X", lambda: EStr.X), ("IE.ONE", lambda: IE.ONE), ("FRWX.R", lambda: FRWX.R),
     ("object()", object), ("deep50", lambda: _deep(50)), ("[[1]]", lambda: [[1]]), ("[{}]", lambda: [{}]), ("[[1],[1]]", lambda: [[1], [1]]),
+    ("NTItems", lambda: NTItems(5, 3, 1, None)), ("ObjItems", ObjItems), ("[NTItems]", lambda: [NTItems(5, 3, 1, None)]),
     ("Ellipsis", lambda: ...), ("NotImplemented", lambda: NotImplemented),
 ]
 POOL_BY_LABEL = dict(POOL)
